@@ -158,7 +158,7 @@ func build(kind string, c content) lister {
 		fill(d, c[0])
 		h := dbm.NewListHelper(d)
 		return lister{list: h.List, count: h.PrefixCount, close: func() { d.Close(); os.RemoveAll(dir) }}
-	case "merged":
+	case "merged", "merged3":
 		var ls []dbm.IteratorDB
 		for _, l := range c {
 			ls = append(ls, mem(l))
@@ -382,29 +382,50 @@ func enumerate(options []int, workers int, r *vx.Run, what string, f func(choice
 	wg.Wait()
 }
 
-// cellsOf decodes a per-key option into per-layer cells. full: every combination over nl layers.
-func cellsOf(opt, nl int) []int {
-	c := make([]int, nl)
-	for l := 0; l < nl; l++ {
-		c[l] = opt % 3
-		opt /= 3
+// option sets: each option is the state of one key in every layer (index 0 = top).
+func fullCells(nl int) [][]int {
+	n := 1
+	for i := 0; i < nl; i++ {
+		n *= 3
 	}
-	return c
+	var out [][]int
+	for o := 0; o < n; o++ {
+		c := make([]int, nl)
+		x := o
+		for l := 0; l < nl; l++ {
+			c[l] = x % 3
+			x /= 3
+		}
+		out = append(out, c)
+	}
+	return out
 }
 
-// reduced options for the neighbours outside the prefix: absent, live on top, live at the bottom,
-// tombstone on top of a live bottom entry.
-func reducedCells(opt, nl int) []int {
-	c := make([]int, nl)
-	switch opt {
-	case 1:
-		c[0] = live
-	case 2:
-		c[nl-1] = live
-	case 3:
-		c[0], c[nl-1] = tomb, live
+// topBottomCells: every combination in the top and the bottom layer, middle layers untouched.
+func topBottomCells(nl int) [][]int {
+	var out [][]int
+	for t := 0; t < 3; t++ {
+		for b := 0; b < 3; b++ {
+			c := make([]int, nl)
+			c[0], c[nl-1] = t, b
+			if nl == 1 {
+				c[0] = t
+			}
+			out = append(out, c)
+		}
 	}
-	return c
+	return out
+}
+
+// neighbourCells: reduced options for the keys outside the prefix: absent, tombstone on top of a
+// live bottom entry, (n4: also live on top, live at the bottom).
+func neighbourCells(nl int, n4 bool) [][]int {
+	mk := func(t, b int) []int { c := make([]int, nl); c[0] = t; c[nl-1] = b; return c }
+	out := [][]int{mk(absent, absent), mk(tomb, live)}
+	if n4 {
+		out = append(out, mk(live, absent), mk(absent, live))
+	}
+	return out
 }
 
 func main() {
@@ -478,38 +499,48 @@ func main() {
 				out = append(out, k)
 			}
 		}
-		// in = P, P+0x00, P+b, P+0xff, P+0xff0xff ; quick keeps P, P+0xff, P+0xff0xff
-		inSel := []string{in[0], in[3], in[4]}
-		if !r.Quick() {
-			inSel = []string{in[0], in[1], in[3], in[4]}
+		// in = P, P+0x00, P+b, P+0xff, P+0xff0xff
+		type plan struct {
+			kind string
+			nl   int
+			keys []string
+			opts [][][]int
 		}
-		for _, nl := range []int{2, 3} {
-			kind := "merged"
-			if nl == 3 {
-				kind = "localdb"
+		var plans []plan
+		if r.Quick() {
+			plans = []plan{
+				{"merged", 2, []string{in[0], in[3], in[4], out[0], out[1]},
+					[][][]int{fullCells(2), fullCells(2), fullCells(2), neighbourCells(2, true), neighbourCells(2, true)}},
+				{"localdb", 3, []string{in[0], in[3], in[4], out[0], out[1]},
+					[][][]int{topBottomCells(3), fullCells(3), fullCells(3), neighbourCells(3, false), neighbourCells(3, false)}},
 			}
-			if only != "" && only != kind {
+		} else {
+			plans = []plan{
+				{"merged", 2, []string{in[0], in[1], in[3], in[4], out[0], out[1]},
+					[][][]int{fullCells(2), fullCells(2), fullCells(2), fullCells(2), neighbourCells(2, true), neighbourCells(2, true)}},
+				{"localdb", 3, []string{in[0], in[3], in[4], out[0], out[1]},
+					[][][]int{fullCells(3), fullCells(3), fullCells(3), neighbourCells(3, true), neighbourCells(3, true)}},
+				{"merged", 3, []string{in[0], in[1], in[3], in[4], out[0], out[1]},
+					[][][]int{topBottomCells(3), fullCells(3), fullCells(3), topBottomCells(3), neighbourCells(3, false), neighbourCells(3, false)}},
+			}
+		}
+		for _, pl := range plans {
+			pl := pl
+			if only != "" && only != pl.kind {
 				continue
 			}
-			per := 1
-			for i := 0; i < nl; i++ {
-				per *= 3
-			}
 			var opts []int
-			for range inSel {
-				opts = append(opts, per)
+			for _, o := range pl.opts {
+				opts = append(opts, len(o))
 			}
-			for range out {
-				opts = append(opts, 4)
-			}
-			enumerate(opts, workers, r, fmt.Sprintf("%s %d layers", kind, nl), func(ch []int) {
-				c := make(content, nl)
+			enumerate(opts, workers, r, fmt.Sprintf("%s %d layers", pl.kind, pl.nl), func(ch []int) {
+				c := make(content, pl.nl)
 				for l := range c {
 					c[l] = map[string]string{}
 				}
-				put := func(k string, cells []int) {
-					for l, s := range cells {
-						switch s {
+				for i, k := range pl.keys {
+					for l, st := range pl.opts[i][ch[i]] {
+						switch st {
 						case live:
 							c[l][k] = value(k, l)
 						case tomb:
@@ -517,13 +548,7 @@ func main() {
 						}
 					}
 				}
-				for i, k := range inSel {
-					put(k, cellsOf(ch[i], nl))
-				}
-				for i, k := range out {
-					put(k, reducedCells(ch[len(inSel)+i], nl))
-				}
-				checkContent(r, kind, p, ks, c)
+				checkContent(r, pl.kind, p, ks, c)
 			})
 		}
 	}
